@@ -38,6 +38,8 @@ def parents(root):
 
 def is_io_result(x):
     ty = x.get("ty", "")
+    if ty.startswith("std::option::Option<std::result::Result<") and ty.endswith(">>"):
+        ty = ty[len("std::option::Option<"):-1]       # `fn open(..) -> Option<io::Result<Self>>`: the failure is one level down
     return x.get("k") in ("call", "mcall") and ty.startswith("std::result::Result<") and "std::io::Error" in ty.split(",")[-1]
 
 
@@ -61,6 +63,8 @@ def classify_match(m, producer=None):
     """(verdict, detail) for `match <io result> { Ok.. , Err(e) => .. }`"""
     for a in m["arms"]:
         p = a["pat"]
+        if p.get("k") == "ts" and H.last(p["res"].get("path")) == "Some" and len(p.get("pats", [])) == 1 and p["pats"][0].get("k") == "ts":
+            p = p["pats"][0]        # Some(Err(e)) of an Option<io::Result<..>>
         if p.get("k") == "ts" and H.last(p["res"].get("path")) == "Err":
             ev = p["pats"][0].get("name") if p["pats"] and p["pats"][0].get("k") == "bind" else None
             if a.get("guard") is not None:
@@ -301,6 +305,12 @@ def run(F, R, tier):
                 det = ".%s() on an io::Result" % pa["m"]
             elif kind == "mcall" and pa["m"] in ("map", "and_then", "map_err") and pa.get("recv") is x and is_io_result(pa):
                 ok, det = True, ".%s(..) keeps the error; its io::Result is examined in turn" % pa["m"]
+            elif kind == "call" and H.last(pa.get("ctor") or "") == "Some" and "std::io::Error" in (pa.get("ty") or ""):
+                # handed on inside Some(..) by a function returning Option<io::Result<..>>: the call of that function is a
+                # producer where it is made
+                gp = par.get(id(pa))
+                ok = gp is None or gp.get("k") in ("block", "ret", "match", "if")
+                det = "returned inside Some(..)" if ok else det
             elif kind == "tup":
                 # `let (file, readable) = match mode { "r" => (File::open(path), true), .. }`: stored under a name; the
                 # uses of that name are producers examined here
